@@ -1,6 +1,7 @@
 import QuantemModel.Model.SerializeSpec
 import QuantemModel.Lemmas.SerializeCanon
 import QuantemModel.Lemmas.SeqKeys
+import QuantemModel.Lemmas.SerializeExt
 /-!
 C01 — serializer round-trip fidelity, for the executable model of serialize.py
 (Model/Serialize.lean).  Only property theorems and non-vacuity examples live here.
@@ -400,6 +401,210 @@ example : seqDecode ([0, 1, 10, 11, 2, 3, 4, 5, 6, 7, 8, 9].map fun i => (dec i,
     some ((List.range 12).map fun i => i * i) := by decide +kernel
 
 end SeqKeys
+
+/-! ### `save()` argument handling and HISTORIES of public calls (`Model/SerializeExt.lean`)
+
+"for both stores, all compression levels 0..9 and None, both write modes": the checks at the
+top of `save()` accept exactly these configurations, the stored tree does not depend on the
+level, and a target holds — after ANY history of further calls that do not overwrite it,
+rejected and raising calls included — what the last save that returned normally wrote. -/
+
+/-- **every configuration of the quantifier is accepted**: level `None` or `0..9`, store zip (any
+path; `.zip` is appended when missing) or dir (extension-less path), target absent or `mode="o"` -/
+theorem resolveSave_accepts (ex : String → Bool) (a : SaveArgs)
+    (hl : levelOk a.level = true)
+    (hs : resolveStore a = "zip" ∨ (resolveStore a = "dir" ∧ hasExt (resolvePath a) = false))
+    (hm : ex (resolvePath a) = false ∨ a.mode = "o") :
+    resolveSave ex a = .ok (resolveStore a, resolvePath a) := by
+  unfold resolveSave
+  have h1 : (ex (resolvePath a) && a.mode != "o") = false := by
+    rcases hm with h | h <;> simp [h]
+  rcases hs with h | ⟨h, he⟩
+  · simp [hl, h1, h]
+  · simp [hl, h1, h, he]
+
+/-- **exactly these**: a call is accepted iff the level is `None`/`0..9`, the target is absent or
+the mode is `"o"`, and the (resolved) store is zip, or dir with an extension-less path -/
+theorem resolveSave_ok_iff (ex : String → Bool) (a : SaveArgs) (r : String × String) :
+    resolveSave ex a = .ok r ↔
+      (levelOk a.level = true ∧ (ex (resolvePath a) = false ∨ a.mode = "o") ∧
+        (resolveStore a = "zip" ∨ (resolveStore a = "dir" ∧ hasExt (resolvePath a) = false)) ∧
+        r = (resolveStore a, resolvePath a)) := by
+  constructor
+  · intro h
+    have hr := resolveSave_ok_eq ex a r h
+    unfold resolveSave at h
+    split at h
+    · cases h
+    · rename_i hl
+      simp only at h
+      split at h
+      · cases h
+      · rename_i hm
+        split at h
+        · cases h
+        · rename_i hd
+          split at h
+          · cases h
+          · rename_i hu
+            refine ⟨by simpa using hl, ?_, ?_, hr⟩
+            · by_cases hex : ex (resolvePath a) = true
+              · right; simpa [hex] using hm
+              · left; simpa using hex
+            · by_cases hz : resolveStore a = "zip"
+              · left; exact hz
+              · right
+                have hdir : resolveStore a = "dir" := by
+                  by_cases hdd : resolveStore a = "dir"
+                  · exact hdd
+                  · exact absurd (by simp [hz, hdd]) hu
+                refine ⟨hdir, ?_⟩
+                simpa [hdir] using hd
+  · rintro ⟨hl, hm, hs, rfl⟩
+    exact resolveSave_accepts ex a hl hs hm
+
+/-- **every compression level gives the same result**: which target is written and what is stored
+there (`save {} v` takes no level) do not depend on the level, for all levels `None`, `0..9` -/
+theorem resolveSave_level_independent (ex : String → Bool) (a : SaveArgs) (l1 l2 : Option Int)
+    (h1 : levelOk l1 = true) (h2 : levelOk l2 = true) :
+    resolveSave ex { a with level := l1 } = resolveSave ex { a with level := l2 } := by
+  simp [resolveSave, h1, h2, resolveStore, resolvePath]
+
+/-- a level outside `0..9` is rejected whatever else is passed, before the target is looked at -/
+theorem resolveSave_bad_level (ex : String → Bool) (a : SaveArgs) (h : levelOk a.level = false) :
+    resolveSave ex a = .error .valueError := by
+  simp [resolveSave, h]
+
+/-- **exception safety**: a call that raises — rejected arguments, write protection, a failure while
+writing, a failing load — leaves every target exactly as it was -/
+theorem raised_call_is_noop (fs : Fs) (op : HOp) (e : CallErr) (h : (hstep fs op).2 = .raised e) :
+    (hstep fs op).1 = fs := by
+  cases op with
+  | load p =>
+    simp only [hstep] at h ⊢
+    split
+    · rfl
+    · split <;> rfl
+  | inspect p =>
+    simp only [hstep] at h ⊢
+    split <;> rfl
+  | saveRaises a =>
+    simp only [hstep] at h ⊢
+    split <;> rfl
+  | save v a =>
+    simp only [hstep] at h ⊢
+    split
+    · rfl
+    · rename_i store p hok
+      rw [hok] at h
+      cases h
+
+/-- a call touches at most the one target it resolves to -/
+theorem hstep_frame (fs : Fs) (op : HOp) (q : String)
+    (hq : match op with | .save _ a => resolvePath a ≠ q | _ => True) :
+    fsGet (hstep fs op).1 q = fsGet fs q := by
+  cases op with
+  | load p =>
+    simp only [hstep]
+    split
+    · rfl
+    · split <;> rfl
+  | inspect p =>
+    simp only [hstep]
+    split <;> rfl
+  | saveRaises a =>
+    simp only [hstep]
+    split <;> rfl
+  | save v a =>
+    simp only [hstep]
+    split
+    · rfl
+    · rename_i store p hok
+      have hp := resolveSave_ok_eq _ _ _ hok
+      have hp2 : p = resolvePath a := by cases hp; rfl
+      simp only
+      rw [fsGet_fsSet_ne]
+      rw [hp2]
+      exact fun e => hq e.symm
+
+/-- **round trip over every history**: after ANY history `pre`, a save of a well-formed object that
+is accepted for `path`, followed by ANY history `post` of calls none of which overwrites `path`
+(loads, `print_file` calls, saves to other targets, saves onto `path` without `mode="o"`, saves with a rejected level,
+saves that raise part-way — in any number and order), `load(path)` returns the canonical form of
+the saved object -/
+theorem roundtrip_history (fs₀ : Fs) (pre post : List HOp) (cls : String) (attrs : List (String × Val))
+    (a : SaveArgs) (store path : String)
+    (hwf : wfA (.obj cls attrs) = true)
+    (hacc : resolveSave (fun p => (fsGet (hrun fs₀ pre).1 p).isSome) a = .ok (store, path))
+    (hq : ∀ op ∈ post, quietOn path op = true) :
+    (hstep (hrun fs₀ (pre ++ [.save (.obj cls attrs) a] ++ post)).1 (.load path)).2
+      = .loaded (canon (.obj cls attrs)) := by
+  rw [List.append_assoc, hrun_append]
+  have h1 : fsGet (hrun (hrun fs₀ pre).1 ([.save (.obj cls attrs) a] ++ post)).1 path
+      = some (save {} (.obj cls attrs)) := by
+    rw [hrun_append]
+    apply quiet_run_keeps _ _ _ _ hq
+    simp only [hrun, hstep, hacc]
+    exact fsGet_fsSet_same _ _ _
+  simp only [hstep, h1, roundtrip cls attrs hwf]
+
+/-- **fixed point over histories**: what a load returned can be saved again — to any accepted
+target, after any history, followed by any quiet history — and reloads as the very same graph -/
+theorem fixed_point_history (fs₀ : Fs) (pre post : List HOp) (cls : String) (attrs : List (String × Val))
+    (a : SaveArgs) (store path : String)
+    (hwf : wfA (.obj cls attrs) = true)
+    (hacc : resolveSave (fun p => (fsGet (hrun fs₀ pre).1 p).isSome) a = .ok (store, path))
+    (hq : ∀ op ∈ post, quietOn path op = true) :
+    (hstep (hrun fs₀ (pre ++ [.save (canon (.obj cls attrs)) a] ++ post)).1 (.load path)).2
+      = .loaded (canon (.obj cls attrs)) := by
+  obtain ⟨hid, hw⟩ := canon_stable (.obj cls attrs)
+  have hc : canon (.obj cls attrs) = .obj cls (reorder (canonKvs attrs)) := by simp [canon]
+  have h := roundtrip_history fs₀ pre post cls (reorder (canonKvs attrs)) a store path
+    (by rw [← hc]; exact hw hwf) hacc hq
+  rw [← hc, hid] at h
+  exact h
+
+/-- a target nothing was saved to does not load -/
+theorem load_missing_raises (fs : Fs) (p : String) (h : fsGet fs p = none) :
+    hstep fs (.load p) = (fs, .raised .fileNotFound) := by
+  simp [hstep, h]
+
+/-- `_is_numeric_scalar` on the `isinstance` facts of a value of the universe is the fast-path
+test `isNumeric` that `encode` uses -/
+theorem isNumericScalar_spec (v : Val) : isNumericScalar (numFeatOf v) = isNumeric v := by
+  cases v with
+  | scalar s => cases s <;> simp [numFeatOf, isNumericScalar, isNumeric]
+  | npScalar dt s => cases s <;> simp [numFeatOf, isNumericScalar, isNumeric]
+  | torch k c t => cases k <;> simp [numFeatOf, isNumericScalar, isNumeric]
+  | _ => simp [numFeatOf, isNumericScalar, isNumeric]
+
+/-- containers, arrays and tensors are never numeric scalars, whatever else they claim to be
+(a 0-d array or a one-element tensor passes every `np.integer`-style duck test) -/
+theorem isNumericScalar_arraylike (f : NumFeat) (h : f.isArrayLike = true) : isNumericScalar f = false := by
+  simp [isNumericScalar, h]
+
+/-! non-vacuity of the history layer: a concrete history with a rejected level, a write-protected
+second save, a raising save and a save to another target between the save and the load -/
+
+private def hA : SaveArgs := { path := "/d/run1", mode := "w", store := "dir", level := some 0 }
+private def hB : SaveArgs := { path := "/d/run2", mode := "o", store := "zip", level := none }
+private def hObj : Val := .obj "SA" [("n", .scalar (.int 5)), ("l", .list [.npScalar "int8" (.int 1), .scalar (.float 0)])]
+private def hObj2 : Val := .obj "SB" [("x", .set [.scalar (.str "a")])]
+
+example : resolveSave (fun _ => false) hA = .ok ("dir", "/d/run1") := by decide
+example : resolveSave (fun _ => true) hB = .ok ("zip", "/d/run2.zip") := by decide
+example : resolveSave (fun _ => true) hA = .error .fileExists := by decide
+example : resolveSave (fun _ => false) { hA with level := some 10 } = .error .valueError := by decide
+example : resolveSave (fun _ => false) { hA with path := "/d/run1.zarr" } = .error .valueError := by decide
+example : resolveSave (fun _ => false) { hA with path := "/d.v2/.run1" } = .ok ("dir", "/d.v2/.run1") := by decide
+example : resolveSave (fun _ => true) { hA with store := "tar" } = .error .fileExists := by decide
+example : resolveSave (fun _ => false) { hA with store := "tar" } = .error .valueError := by decide
+example : resolveSave (fun _ => false) { path := "x.zip" } = .ok ("zip", "x.zip") := by decide
+example : ∀ op ∈ [HOp.save hObj2 { hA with level := some 10, mode := "o" }, .save hObj2 hA, .saveRaises { hA with mode := "o" },
+      .save hObj2 hB, .load "/d/run2.zip", .load "/nowhere", .inspect "/d/run1"], quietOn "/d/run1" op = true := by decide
+example : ∃ fs, (hrun [] [HOp.save hObj hA, .save hObj2 hA]).1 = fs ∧ (hrun [] [HOp.save hObj hA, .save hObj2 hA]).2.length = 2 :=
+  ⟨_, rfl, rfl⟩
+example : isNumericScalar (numFeatOf (.npScalar "float64" (.float 0))) = true := by decide
 
 /-! ### non-vacuity: a depth-4 graph with every value kind is well-formed and round-trips -/
 
